@@ -110,4 +110,16 @@ CHECKS["C05"] = {
     "text": "objective spectra x all 25 per-coordinate bound-type combinations {free, lower, upper, two-sided, lower==upper} x 3 placements of the unconstrained minimiser {outside, inside, exactly on a face} x feasible starts on vertices / faces / centre x every configuration with at most k non-default axes of 8 (monotone/non-monotone line search, radii, iteration caps, incremental mode, tolerance, entry point with/without warm start), each run of the real bound_constrained_trust_region_minimize / solve to completion with every reported iterate checked: within bounds (8 ulp of the trajectory scale), exact descent in the solver's own evaluation, honest flag by a reference projected gradient, box-QP minimiser by enumeration of all 3^n active sets; plus project / project_onto_tr on a lattice of points x boxes x radii 1e-6..1e6 (132k cases). 15.6k solver runs / 280k steps quick. Open finding D13 (convergence test on the unaccepted trial point).",
     "note": SHIM + "quick: 4 of 6 spectra, n=2, k=1 on the full box product and k=2 on the reduced one; thorough: all spectra, n=3, k=2/3; RuntimeError('No acceptable Cauchy point') exits and horizon overruns counted, not violations; warm-start entry skipped where the Hessian at the start is not positive definite (premise of the warm start)",
 }
+CHECKS["C08"] = {
+    "engine": "E-PROD",
+    "technique": "exhaustive product of model option x moduli x deformation (all stretch classes) x superposed rotation x side x execution mode",
+    "text": "17 model options (LinearElastic x 3 strain measures, both neo-Hookean variants, Gent, J2 x 3 kinematics in the elastic regime, single- and multi-branch viscoelastic, phase-field threshold x 2) x 3 moduli sets x 116 (quick) / 1400 (thorough) deformation gradients covering distinct / two-equal / three-equal principal stretches over strains 1e-8..10 (uniaxial along 6 in-plane axes, equibiaxial, dilation, fully 3-D) x 28 rotations x {QF, FQ} x {single jitted call, jit(vmap) batch of fixed length}: W(QF)=W(FQ)=W(F), symmetric Kirchhoff stress, and for every option zero energy and stress at the virgin undeformed state. 201k evaluations quick / 2.4M thorough.",
+    "note": "small-strain 'linear' options exempt from objectivity as the statement says; batched failures re-run as single calls and classified per the D11 protocol (two shared open findings: near-repeated spectrum, branch-decision tie); an eigen-accuracy term 1e-7*(lmax/lmin)^2*|log l|*M is allowed only where the gap of C is <= 1e-6",
+}
+CHECKS["C10"] = {
+    "engine": "E-PROD",
+    "technique": "exhaustive product of model x state (all states reached by BFS depth<=2 of the real update) x deformation x all 9 directions / 45 direction pairs vs Richardson-extrapolated finite differences of the energy itself",
+    "text": "every model option of C08 plus 6 J2 configurations (kinematics x hardening x rate) and both viscoelastic models at every internal state reached by breadth-first exploration of the real compute_state_new to depth 2 (virgin, hardened, yielding, relaxing), 8-16 deformations per state on both sides of the yield switch, all 9 first-derivative entries and all 45 second-derivative pairs, single-call and batched; jax.grad and jax.jvp(jax.grad) against 6th-order central differences with Richardson extrapolation of compute_energy_density (811-point stencil in one compiled batch); also Mechanics.compute_output_energy_densities_and_stresses on a one-element mesh. 306k evaluations quick / 2.7M thorough. Found and fixed the inaccurate pow_symm divided difference; the wrong tangent at repeated principal stretches is an open finding.",
+    "note": "stencils that straddle the yield switch / the phase-field tension-compression split / the Gent limit are excluded and counted; a finite-difference value is used only when its Richardson and plain 6th-order estimates agree to 0.1 tau; tolerances 1e-6 (first) and 1e-4 (second) relative, scaled by the modulus",
+}
 NOT_APPLICABLE_REASON = {}
